@@ -613,6 +613,12 @@ def buffer_inv_tasks(replay_fn):
                     tasks.append(CatEmitTask("C15", "C15.buffer.inv.visit_For", "jinja2.compiler:CodeGenerator.visit_For", N.For, buffer_inv_pred,
                                              mode=mode, buffers=(buf,), replay_fn=replay_fn, node_fields={"recursive": rec}))
             continue
+        if nm == "Const":
+            # visit_Const branches on type(value): the value is given a definite kind (a string constant); what the visitor writes is the
+            # repr / hex text of the value, never code that yields, appends or wraps
+            tasks.append(CatEmitTask("C15", "C15.buffer.inv.visit_Const", "jinja2.compiler:CodeGenerator.visit_Const", N.Const, buffer_inv_pred,
+                                     mode=mode, buffers=(None, "t_buf"), replay_fn=replay_fn, node_fields=lambda st: {"value": sym("node.value", "str")}))
+            continue
         tasks.append(CatEmitTask("C15", f"C15.buffer.inv.visit_{nm}", f"jinja2.compiler:CodeGenerator.visit_{nm}", getattr(N, nm), buffer_inv_pred,
                                  mode=mode, buffers=(None, "t_buf"), replay_fn=replay_fn))
 
@@ -625,7 +631,93 @@ def buffer_inv_tasks(replay_fn):
                         mode="stmts", buffers=(None,), replay_fn=replay_fn, node_fields=one_param, configure=emit_configure, min_paths=4)
         t.bound_text = "parameter list of the macro fixed to one symbolic parameter without default (body, flags symbolic)"
         tasks.append(t)
+    # the call block statement itself: what it hands to the output is the value of an arbitrary call expression
+    t = CatEmitTask("C15", "C15.buffer.inv.visit_CallBlock", "jinja2.compiler:CodeGenerator.visit_CallBlock", N.CallBlock, buffer_inv_pred,
+                    mode="stmts", buffers=(None, "t_buf"), replay_fn=native_call_block, node_fields=one_param, configure=emit_configure, min_paths=8)
+    t.bound_text = "parameter list of the call block fixed to one symbolic parameter without default (callee, body, flags symbolic)"
+    tasks.append(t)
+    tasks.append(CatEmitTask("C15", "C15.buffer.inv.eval_ctx_restore", "jinja2.compiler:CodeGenerator.visit_ScopedEvalContextModifier", N.ScopedEvalContextModifier,
+                             eval_ctx_restore_pred, mode="stmts", buffers=(None, "t_buf"), replay_fn=native_eval_ctx_restore, min_paths=4))
     return tasks
+
+
+def eval_ctx_restore_pred(sc, tree, ph, txt):
+    """{% autoescape %} (ScopedEvalContextModifier): the run-time flags are saved before they are changed and reverted on EVERY way out
+    of the body (normal end, break / continue of an enclosing loop, return, exception): the body runs inside try ... finally: revert."""
+    if sc.outcome == "raise" or tree is None:
+        return []
+    fails = []
+    body = list(tree.body)
+    saves = [i for i, s_ in enumerate(body) if isinstance(s_, ast.Assign) and ast.unparse(s_.value) == "context.eval_ctx.save()" and isinstance(s_.targets[0], ast.Name)]
+    if len(saves) != 1:
+        return ["[restore-shape:ScopedEvalContextModifier] the run-time eval context is not saved exactly once"]
+    saved = body[saves[0]].targets[0].id
+    revert = f"context.eval_ctx.revert({saved})"
+    par = emit.parents(tree)
+    # every statement hole of the body must sit in a try whose finally reverts
+    for n in ast.walk(tree):
+        h = hole_of(n, ph)
+        if h is None or h.kind != "stmt":
+            continue
+        p, guarded = n, False
+        while p in par:
+            p = par[p]
+            if isinstance(p, ast.Try) and any(ast.unparse(f) == revert for f in p.finalbody) and any(n is x or n in list(ast.walk(x)) for x in p.body):
+                guarded = True
+        if not guarded:
+            fails.append("[no-finally:ScopedEvalContextModifier] the body of the {% autoescape %} block is not inside try ... finally: "
+                         f"{revert}; a {{% break %}} / {{% continue %}} (or an exception caught outside) leaves context.eval_ctx.autoescape changed for the rest of the render")
+    reverts = [n for n in ast.walk(tree) if isinstance(n, ast.Expr) and ast.unparse(n) == revert]
+    if not reverts:
+        fails.append("[restore-shape:ScopedEvalContextModifier] the saved eval context is never reverted")
+    # the modification happens after the save
+    for i, s_ in enumerate(body):
+        if isinstance(s_, ast.Assign) and ast.unparse(s_.targets[0]).startswith("context.eval_ctx.") and i < saves[0]:
+            fails.append("[restore-shape:ScopedEvalContextModifier] the eval context is modified before it is saved")
+    return fails
+
+
+def native_call_block(w=None):
+    """hunt/h/C15_1: the callee of {% call %} is any call expression; its value is output"""
+    from jinja2 import Environment
+    problems = []
+    v = '<script>alert("x")</script>\'&'
+    srcs = ["{% call v.format() %}{% endcall %}", "{% call \"<b class='l'>\".format() %}{% endcall %}", "{% set y %}{% call v.format() %}{% endcall %}{% endset %}{{ y }}",
+            "{% macro m() %}{% call v.format() %}{% endcall %}{% endmacro %}{{ m() }}", "{% macro m() %}{{ caller() }}{% endmacro %}{% call m() %}{{ v }}{% endcall %}"]
+    for mode, pre, post in (("static", "", ""), ("block", "{% autoescape true %}", "{% endautoescape %}"), ("volatile", "{% autoescape x %}", "{% endautoescape %}")):
+        env = Environment(autoescape=(mode == "static"))
+        for src in srcs:
+            try:
+                out = env.from_string(pre + src + post).render(v=v, x=True)
+            except Exception as ex:
+                problems.append(f"{src}: {type(ex).__name__}: {ex}")
+                continue
+            if leaks(out):
+                problems.append(f"Environment(autoescape={mode == 'static'}).from_string({pre + src + post!r}).render(v={v!r}) == {out!r}: raw {leaks(out)}")
+    return (bool(problems), "; ".join(problems[:3]) or "call blocks with macro and non-macro callees: nothing raw in the output")
+
+
+def native_eval_ctx_restore(w=None):
+    """hunt/h/C15_3 and C16_1: break / continue out of an {% autoescape false %} block"""
+    import html
+    from jinja2 import Environment
+    problems = []
+    v = '<script>alert(1)</script>"\''
+    for kw in ("break", "continue"):
+        env = Environment(autoescape=True, extensions=["jinja2.ext.loopcontrols"])
+        pre = "{% for i in [1] %}{% autoescape false %}{% " + kw + " %}{% endautoescape %}{% endfor %}"
+        for body in ("{{ v }}", "{{ v ~ v }}", "{% macro m(x) %}{{ x }}{% endmacro %}{{ m(v) }}", "{% filter upper %}{{ v }}{% endfilter %}"):
+            out = env.from_string("{% autoescape flag %}" + pre + body + "{% endautoescape %}").render(v=v, flag=True)
+            if leaks(out):
+                problems.append(f"{{% autoescape flag %}}{pre}{body}{{% endautoescape %}} (flag=True) renders {out!r}: raw {leaks(out)} where autoescaping is on")
+        for body in ("{% macro m(x) %}{{ x }}{% endmacro %}{{ m(v) }}", "{% set x %}{{ v }}{% endset %}{{ x }}", "{% block b %}{{ v }}{% endblock %}|{{ self.b() }}"):
+            outs = {}
+            for ae in (True, False):
+                e2 = Environment(autoescape=ae, extensions=["jinja2.ext.loopcontrols"])
+                outs[ae] = e2.from_string(pre + body).render(v='<v> & "q"')
+            if html.unescape(outs[True]) != outs[False]:
+                problems.append(f"{pre}{body}: on renders {outs[True]!r}; unescaped once != off {outs[False]!r} (escaped twice: the run-time flag stayed False)")
+    return (bool(problems), "; ".join(problems[:3]) or "break / continue out of an autoescape block: the flag is restored")
 
 
 # =====================================================================================================
@@ -933,7 +1025,7 @@ class FlowVC(VC):
         self.target = _filter_target(subject) if subject not in GETTEXT else f"jinja2.ext:_make_new_{subject}"
         self.flags = {}
         VC.__init__(self, prop, name)
-        self.posts = [(clause, FlowVC.p_sink if clause == "sink_argument_tagged" else FlowVC.p_result)]
+        self.posts = [(clause, {"sink_argument_tagged": FlowVC.p_sink, "markup_preserved": FlowVC.p_preserved}.get(clause, FlowVC.p_result))]
 
     def closure(self, I):
         if self.subject in GETTEXT:
@@ -1093,6 +1185,22 @@ class FlowVC(VC):
         self._bad_line = bad[0].lineno
         return not (is_markup(out.value) and tainted(out.value))
 
+    def p_preserved(self, pre, out):
+        """C16: under autoescape a result that is built from a Markup piece is Markup (otherwise the already escaped piece is
+        escaped again by the Output that receives the plain string)"""
+        if out.raised:
+            return None
+        c = self.cfg
+        if self.subject == "join":
+            relevant = "M" in c["items"] or (c["d"] == "M" and len(c["items"]) >= 2)
+        elif self.subject == "replace":
+            relevant = c["s"] == "M" or c["new"] == "M"
+        else:
+            relevant = "M" in "".join(str(v) for v in c.values())
+        if not relevant:
+            return None
+        return z3.Implies(self.flags["autoescape"].t, z3.BoolVal(is_markup(out.value)))
+
     def p_result(self, pre, out):
         """a Markup result contains no untagged operand"""
         if out.raised:
@@ -1101,6 +1209,7 @@ class FlowVC(VC):
 
     def describe(self, out):
         return (f"{self.subject} {cfg_key(self.cfg)}: " + ("Markup() is applied to an untagged value that reaches the result" if self.clause == "sink_argument_tagged"
+                else "under autoescape the result is a plain str although it is built from a Markup operand (it will be escaped a second time)" if self.clause == "markup_preserved"
                 else "the result is Markup and contains an untagged plain operand unescaped") + "; " + VC.describe(self, out))
 
     def concretize(self, model, pre, out):
@@ -1136,6 +1245,8 @@ class FlowTask(VC):
         for ci, cfg in enumerate(flow_configs(self.subject)):
             vc = FlowVC(self.prop, self.name, self.subject, cfg, self.clause)
             for r in vc.run(tier, seed):
+                if self.clause == "markup_preserved" and r.name.endswith(".no_obligations"):
+                    continue  # configuration without a Markup operand in the result: the clause does not apply
                 r.name = re.sub(r"#p(\d+)$", lambda m: f"#p{ci * 100 + int(m.group(1))}", r.name)
                 rs.append(r)
             n_sinks += getattr(vc, "n_sinks", 0)
@@ -1148,7 +1259,28 @@ class FlowTask(VC):
         return cfg_key(w["cfg"]) if "cfg" in w else "no-witness"
 
     def replay(self, w):
+        if self.clause == "markup_preserved":
+            return native_markup_preserved(w)
         return native_flow(w)
+
+
+def native_markup_preserved(w):
+    """under autoescape the real join / replace filters return Markup when an operand that ends up in the result is Markup"""
+    import jinja2.filters as F
+    from jinja2.nodes import EvalContext
+    from markupsafe import Markup
+    ctx = EvalContext(jinja2.Environment())
+    ctx.autoescape = True
+    f, c = w["subject"], w["cfg"]
+    mk = lambda k, t: Markup(t) if k == "M" else t
+    if f == "join":
+        r = F.sync_do_join(ctx, [mk(k, "&lt;i%d&gt;" % i) for i, k in enumerate(c["items"])], mk(c["d"], "&amp;"))
+    elif f == "replace":
+        r = F.do_replace(ctx, mk(c["s"], "&lt;s&gt; x"), mk(c["old"], "x"), mk(c["new"], "&lt;n&gt;"))
+    else:
+        return (None, f"no native replay for {f}")
+    bad = not hasattr(r, "__html__")
+    return (bad, f"{f} {cfg_key(c)} under autoescape returns {r!r}" + (": a plain str built from a Markup operand" if bad else ""))
 
 
 SINK_SUBJECTS = {  # function with a Markup( call site  ->  obligation suffix
@@ -1304,6 +1436,9 @@ class WrapperVC(VC):
         import jinja2.environment as E
         self.is_async = sym("environment.is_async", "bool")
         self.flag = sym("autoescape", "bool")
+        # ghost: the autoescape flag under which the generated function produced (escaped or not) its pieces;
+        # its output is html_safe exactly when this flag was on (C15.output.wrap / C15.buffer.inv)
+        self.producer = sym("producer.autoescape", "bool")
         env = A.obj(st, jinja2.Environment, "env", fields={"is_async": self.is_async, "concat": sym("environment.concat", "obj", tags={"concat_fn"})})
         func = sym("generated_function", "obj", tags={"generated_func"})
         w = self.which
@@ -1321,7 +1456,7 @@ class WrapperVC(VC):
             context = A.obj(st, R.Context, "context", fields={"eval_ctx": ctx, "environment": env})
             br = A.obj(st, R.BlockReference, "block", fields={"_context": context, "_stack": st.alloc(HList(items=[func]), initial=True), "_depth": 0, "name": "b"})
             return [br], {}
-        tm = A.obj(st, E.TemplateModule, "module", fields={"_body_stream": st.alloc(HList(items=[atom("piece0", False, False, extra={GENERATED}), atom("piece1", False, False, extra={GENERATED})]), initial=True)})
+        tm = A.obj(st, E.TemplateModule, "module", fields={"_escaped": self.producer, "_body_stream": st.alloc(HList(items=[atom("piece0", False, False, extra={GENERATED}), atom("piece1", False, False, extra={GENERATED})]), initial=True)})
         return [tm], {}
 
     # -- C15
@@ -1334,6 +1469,15 @@ class WrapperVC(VC):
                 return False
         return True
 
+    def p_sink_only_when_producer_escaped(self, pre, out):
+        """Markup() is applied to the generated output only on paths where the flag that governed its production was on:
+        the wrapper must decide by the producer's flag, not by an unrelated one (the caller's run-time flag, or none at all)"""
+        if out.raised:
+            return False
+        if not sinks(out):
+            return True
+        return self.producer.t
+
     # -- C16
     def p_markup_iff_autoescape(self, pre, out):
         if out.raised:
@@ -1342,9 +1486,10 @@ class WrapperVC(VC):
         if not (isinstance(v, Sym) and "text" in v.tags):
             return False
         if self.which == "TemplateModule.__html__":
-            return is_markup(v) and len(sinks(out)) == 1
+            return is_markup(v)
         if self.which == "TemplateModule.__str__":
-            return (not is_markup(v)) and not sinks(out) and GENERATED in v.tags
+            # consistent with __html__: the string form keeps the information that the body is already escaped
+            return z3.BoolVal(is_markup(v)) == self.producer.t
         m = z3.BoolVal(is_markup(v))
         return m == self.flag.t
 
@@ -1354,10 +1499,13 @@ class WrapperVC(VC):
             return False
         calls = [e for e in out.st.trace if e.kind == "call" and e.name == "generated_func"]
         escapes = [e for e in out.st.trace if e.kind == "call" and e.name == "escape"]
+        if self.which.startswith("TemplateModule"):
+            if calls or len(escapes) > 1:
+                return False
+            # escaping the body is right exactly when the module's template did not escape it
+            return z3.Not(self.producer.t) if escapes else True
         if escapes:
             return False
-        if self.which.startswith("TemplateModule"):
-            return not calls
         if len(calls) != 1:
             return False
         v = out.value
@@ -1368,9 +1516,20 @@ class WrapperVC(VC):
 
     def concretize(self, model, pre, out):
         from pyvc.smt import model_value
-        return {"wrapper": self.which, "autoescape": bool(model_value(model, self.flag.t)), "is_async": bool(model_value(model, self.is_async.t))}
+        return {"wrapper": self.which, "autoescape": bool(model_value(model, self.flag.t)), "is_async": bool(model_value(model, self.is_async.t)),
+                "producer": bool(model_value(model, self.producer.t))}
+
+    def finding_key(self, res):
+        w = res.witness or {}
+        if not w:
+            return "no-witness"
+        if str(w.get("wrapper", "")).startswith("TemplateModule"):
+            return f"{w.get('wrapper')}:producer={w.get('producer')}"  # no flag of a call takes part
+        return f"{w.get('wrapper')}:call={w.get('autoescape')},producer={w.get('producer')}"
 
     def replay(self, w):
+        if isinstance(w, dict) and w.get("autoescape") != w.get("producer") or (isinstance(w, dict) and str(w.get("wrapper", "")).startswith("TemplateModule")):
+            return native_mixed_flags(w)
         return native_wrappers(w)
 
 
@@ -1414,11 +1573,45 @@ def native_wrappers(w=None):
     return (bool(problems), "; ".join(problems[:3]) or "macro / call / super / self.block / set / import family: no leak, escaped exactly once")
 
 
-WRAPPER_SINKS = ["Macro._invoke", "Macro._async_invoke", "BlockReference.__call__", "BlockReference._async_call", "TemplateModule.__html__"]
+WRAPPER_SINKS = ["Macro._invoke", "Macro._async_invoke", "BlockReference.__call__", "BlockReference._async_call", "TemplateModule.__html__", "TemplateModule.__str__"]
 
 
 def wrapper_sink_tasks():
-    return [WrapperVC("C15", f"C15.sink.{('environment.' if w.startswith('Template') else 'runtime.')}{w}", w, ["sink_argument_is_generated_output"]) for w in WRAPPER_SINKS]
+    return [WrapperVC("C15", f"C15.sink.{('environment.' if w.startswith('Template') else 'runtime.')}{w}", w,
+                      ["sink_argument_is_generated_output", "sink_only_when_producer_escaped"]) for w in WRAPPER_SINKS]
+
+
+def native_mixed_flags(w=None):
+    """Templates in which the text is produced under one autoescape decision and used under another (name-based selector with a
+    .txt helper, {% autoescape %} regions): nothing raw may appear where autoescaping is on.  (inputs of hunt/h/C15_5, C15_6, C15_7, C16_3)"""
+    import html
+    from jinja2 import Environment, DictLoader, select_autoescape
+    v = '<script>alert(1)</script>"\''
+    which = str((w or {}).get("wrapper", "")) if isinstance(w, dict) else ""
+    problems = []
+    lib = {"helpers.txt": "{% macro field(x) %}{{ x }}{% endmacro %}", "base.txt": "{% block body %}{{ v }}{% endblock %}", "part.txt": "{{ v }}", "part.html": "[{{ v }}]"}
+    cases = {
+        "Macro": [("from.html", "{% from 'helpers.txt' import field %}{{ field(v) }}"), ("import.html", "{% import 'helpers.txt' as h %}{{ h.field(v) }}"),
+                  ("set.html", "{% from 'helpers.txt' import field %}{% set y = field(v) %}{{ y }}")],
+        "BlockReference": [("child.html", "{% extends 'base.txt' %}{% block body %}{{ super() }}{% endblock %}"),
+                           ("child2.html", "{% extends 'base.txt' %}{% block body %}{% set s = super() %}{{ s }}{% endblock %}")],
+        "TemplateModule.__html__": [("mod.html", "{% import 'part.txt' as p with context %}{{ p }}"), ("mod2.html", "{% import 'part.txt' as p with context %}{{ [p, 'x']|join(', ') }}")],
+    }
+    chosen = [k for k in cases if which.startswith(k)] or ([] if which.startswith("TemplateModule.__str__") else list(cases))
+    for k in chosen:
+        for name, src in cases[k]:
+            env = Environment(autoescape=select_autoescape(), loader=DictLoader(dict(lib, **{name: src})))
+            out = env.get_template(name).render(v=v)
+            if leaks(out):
+                problems.append(f"select_autoescape(): {name} = {src!r} renders {out!r}: raw {leaks(out)} in an html template")
+    if which.startswith("TemplateModule.__str__") or not which:
+        outs = {}
+        for ae in (True, False):
+            env = Environment(autoescape=ae, loader=DictLoader(lib))
+            outs[ae] = env.from_string("{% import 'part.html' as p with context %}{{ p|string }}|{{ p|trim }}|{{ p ~ '' }}").render(v='<v> & "q"')
+        if html.unescape(outs[True]) != outs[False]:
+            problems.append(f"{{% import 'part.html' as p with context %}}{{{{ p|string }}}}...: on renders {outs[True]!r}, unescaped once {html.unescape(outs[True])!r} != off {outs[False]!r}")
+    return (bool(problems), "; ".join(problems[:3]) or "text produced under one autoescape decision and used under another: nothing raw, nothing escaped twice")
 
 
 # =====================================================================================================
@@ -1462,6 +1655,7 @@ COVERED_SITES = {
     ("runtime", "Macro._async_invoke"): "C15.sink.runtime.Macro._async_invoke",
     ("runtime", "Macro._invoke"): "C15.sink.runtime.Macro._invoke",
     ("environment", "TemplateModule.__html__"): "C15.sink.environment.TemplateModule.__html__",
+    ("environment", "TemplateModule.__str__"): "C15.sink.environment.TemplateModule.__str__ (the string form may be Markup only when the module's template escaped)",
     ("ext", "_make_new_gettext.gettext"): "C15.sink.ext.gettext",
     ("ext", "_make_new_ngettext.ngettext"): "C15.sink.ext.ngettext",
     ("ext", "_make_new_pgettext.pgettext"): "C15.sink.ext.pgettext",
@@ -1561,6 +1755,165 @@ def structural_sinks(task, tier, seed):
     row("C15.sink.utils.urlize.parameters_escaped", not bad and any(isinstance(n, ast.Name) and n.id == "text" for n in ast.walk(fn)),
         "utils.urlize uses text / rel / target only as escape(...) arguments (the regex-selected re-emission is C24.bounded.urlize)" + ("; UNESCAPED USE: " + "; ".join(bad) if bad else ""))
     return rs
+
+
+def html_methods(task, tier, seed):
+    """every `__html__` method defined in the package is a sink: escape(), do_join, markup_join and Markup.join trust its result.
+    It must return escape(...) / a string built from literals and escape outputs, or be covered by a sink obligation."""
+    import os
+    rs = []
+    found = 0
+    for path in _package_files():
+        mod = os.path.basename(path)[:-3]
+        tree = ast.parse(open(path, encoding="utf-8").read())
+        for cls in [n for n in ast.walk(tree) if isinstance(n, ast.ClassDef)]:
+            for fn in cls.body:
+                if not (isinstance(fn, ast.FunctionDef) and fn.name == "__html__"):
+                    continue
+                found += 1
+                qual = f"{mod}.{cls.name}.__html__"
+                body = [b for b in fn.body if not (isinstance(b, ast.Expr) and isinstance(b.value, ast.Constant))]
+                if all(isinstance(b, ast.Pass) for b in body):
+                    rs.append(Res(f"C15.sink.html_methods.{qual}", "discharged", "ast", 0, f"{qual}: protocol stub without a body", "table"))
+                    continue
+                if (mod, f"{cls.name}.__html__") in COVERED_SITES:
+                    rs.append(Res(f"C15.sink.html_methods.{qual}", "discharged", "ast", 0, f"{qual}: {COVERED_SITES[(mod, cls.name + '.__html__')]}", "table"))
+                    continue
+                rets = [n.value for n in ast.walk(fn) if isinstance(n, ast.Return) and n.value is not None]
+                ok = bool(rets) and all(static_safe_expr(r) for r in rets)
+                rs.append(Res(f"C15.sink.html_methods.{qual}", "discharged" if ok else "refuted", "ast", 0,
+                              f"{mod}.py:{fn.lineno} {qual} returns " + "; ".join(ast.unparse(r) for r in rets)
+                              + ("" if ok else ": not escape(...) - escape() trusts __html__, so this text reaches the output unescaped"), "table",
+                              None if ok else {"method": qual, "line": fn.lineno, "returns": [ast.unparse(r) for r in rets]}))
+    rs.append(Res("C15.sink.html_methods.count", "discharged" if found >= 2 else "refuted", "ast", 0, f"{found} __html__ methods in the package", "table",
+                  None if found >= 2 else {"count": found}))
+    return rs
+
+
+def native_html_methods(w=None):
+    """hunt/h/C15_2: ChainableUndefined combined with DebugUndefined"""
+    from jinja2 import Environment, ChainableUndefined, DebugUndefined
+
+    class U(ChainableUndefined, DebugUndefined):
+        pass
+
+    class U2(DebugUndefined, ChainableUndefined):
+        pass
+
+    problems = []
+    v = "<script>alert(1)</script>"
+    for cls in (U, U2):
+        env = Environment(autoescape=True, undefined=cls)
+        for src in ("{{ d[v] }}", "{{ d[v].a.b }}", "{{ [d[v], 'x']|join(', ') }}", "{% set y %}{{ d[v] }}{% endset %}{{ y }}"):
+            out = env.from_string(src).render(d={}, v=v)
+            if "<script>" in out:
+                problems.append(f"Environment(autoescape=True, undefined={cls.__name__}({', '.join(b.__name__ for b in cls.__bases__)})).from_string({src!r}).render(d={{}}, v={v!r}) == {out!r}")
+    return (bool(problems), "; ".join(problems[:2]) or "undefined classes with __html__: the data key is escaped")
+
+
+def markup_combinators(task, tier, seed):
+    """Dependency spec of the Markup combinators, checked on the installed MarkupSafe (bounded): every public str method of Markup
+    that accepts string-bearing operands and returns Markup escapes plain operands."""
+    from markupsafe import Markup
+    t0 = time.time()
+    P = "<p>"
+    m = Markup("a x b")
+    calls = {
+        "replace": lambda: m.replace("x", P), "join": lambda: m.join([P, P]), "__add__": lambda: m + P, "__radd__": lambda: P + m, "__mod__": lambda: Markup("%s") % P,
+        "__mod__(tuple)": lambda: Markup("%s%s") % (P, P), "__mod__(dict)": lambda: Markup("%(k)s") % {"k": P}, "format": lambda: Markup("{}").format(P),
+        "format(keyword)": lambda: Markup("{k}").format(k=P), "format_map": lambda: Markup("{k}").format_map({"k": P}), "translate": lambda: m.translate({ord("x"): P}),
+        "translate(maketrans)": lambda: m.translate(str.maketrans({"x": P})), "strip": lambda: m.strip(P), "lstrip": lambda: m.lstrip(P), "rstrip": lambda: m.rstrip(P),
+        "partition": lambda: m.partition("x"), "rpartition": lambda: m.rpartition("x"), "split": lambda: m.split("x"), "rsplit": lambda: m.rsplit("x"),
+        "splitlines": lambda: m.splitlines(), "removeprefix": lambda: m.removeprefix("a"), "removesuffix": lambda: m.removesuffix("b"), "__mul__": lambda: m * 2,
+        "__getitem__": lambda: m[0:3], "capitalize": lambda: m.capitalize(), "title": lambda: m.title(), "lower": lambda: m.lower(), "upper": lambda: m.upper(),
+        "swapcase": lambda: m.swapcase(), "casefold": lambda: m.casefold(), "expandtabs": lambda: m.expandtabs(2), "zfill": lambda: m.zfill(9),
+        "center": lambda: m.center(9), "ljust": lambda: m.ljust(9), "rjust": lambda: m.rjust(9),
+    }
+    task.bound_text = f"{len(calls)} method applications with the plain operand {P!r} on the installed MarkupSafe"
+    rs = []
+    covered = set(k.split("(")[0] for k in calls)
+    # methods of Markup that return Markup and are not exercised would be a hole in the spec
+    missing = sorted(n for n in dir(Markup) if not n.startswith("_") and callable(getattr(Markup, n)) and n not in covered
+                     and n not in ("encode", "count", "find", "rfind", "index", "rindex", "startswith", "endswith", "maketrans", "escape", "unescape", "striptags")
+                     and not n.startswith("is"))
+    for k, f in calls.items():
+        try:
+            r = f()
+        except Exception as ex:
+            rs.append(Res(f"C15.dependency.markup_combinators.{k}", "bounded-ok", "native", 0, f"raises {type(ex).__name__}", "bounded"))
+            continue
+        items = r if isinstance(r, (list, tuple)) else [r]
+        leak = [x for x in items if hasattr(x, "__html__") and P in x]
+        rs.append(Res(f"C15.dependency.markup_combinators.{k}", "refuted" if leak else "bounded-ok", "native", time.time() - t0,
+                      f"Markup.{k} with the plain operand {P!r} returns {r!r}" + (": Markup that contains the operand unescaped" if leak else ""), "bounded",
+                      {"method": k} if leak else None))
+    rs.append(Res("C15.dependency.markup_combinators.inventory", "refuted" if missing else "bounded-ok", "native", 0,
+                  f"public Markup methods not exercised: {missing}", "bounded", {"missing": missing} if missing else None))
+    return rs
+
+
+def markup_combinators_key(res):
+    return ((res.witness or {}).get("method") or "inventory").split("(")[0]
+
+
+def native_markup_combinators(w=None):
+    """hunt/h/C15_8"""
+    from jinja2 import Environment
+    env = Environment(autoescape=True)
+    v = '<script>alert(1)</script>"\''
+    problems = []
+    for src in ("{{ (name|e).translate({120: v}) }}", "{% set n %}{{ name }}{% endset %}{{ n.translate({120: v}) }}", "{% macro m() %}{{ name }}{% endmacro %}{{ m().translate({120: v}) }}",
+                "{{ (name|e).replace('x', v) }}", "{{ (name|e).join([v, v]) }}", "{{ (name|e) + v }}", "{{ '%s'|e|format(v) }}"):
+        out = env.from_string(src).render(name="x", v=v)
+        if leaks(out):
+            problems.append(f"{src} renders {out!r}")
+    return (bool(problems), "; ".join(problems[:2]) or "Markup methods escape plain operands")
+
+
+def cache_key_autoescape(task, tier, seed):
+    """A bytecode cache entry is reused only for a compilation with the same autoescape decision: the bucket key / checksum that the real
+    BytecodeCache.get_bucket computes must differ between two environments whose autoescape decision for the template differs."""
+    from jinja2 import Environment
+    from jinja2.bccache import BytecodeCache
+
+    class Rec(BytecodeCache):
+        def load_bytecode(self, bucket):
+            pass
+
+        def dump_bytecode(self, bucket):
+            pass
+
+    cache = Rec()
+    a, b = Environment(autoescape=False, bytecode_cache=cache), Environment(autoescape=True, bytecode_cache=cache)
+    ba, bb = cache.get_bucket(a, "page.html", None, "{{ v }}"), cache.get_bucket(b, "page.html", None, "{{ v }}")
+    same = (ba.key, ba.checksum) == (bb.key, bb.checksum)
+    return [Res("C15.cache.autoescape_key", "refuted" if same else "discharged", "table", 0,
+                f"get_bucket for 'page.html' under autoescape=False / True: key {ba.key[:10]} / {bb.key[:10]}, checksum {ba.checksum[:10]} / {bb.checksum[:10]}"
+                + (": identical - code compiled without escaping is loaded where autoescaping is on" if same else ""), "table", {"shared_cache": True} if same else None)]
+
+
+def native_cache_key(w=None):
+    """hunt/h/C15_4 (root cause: DESIGN F19, C27.key.config)"""
+    from jinja2 import Environment, DictLoader
+    from jinja2.bccache import BytecodeCache
+
+    class Mem(BytecodeCache):
+        def __init__(self):
+            self.d = {}
+
+        def load_bytecode(self, bucket):
+            if bucket.key in self.d:
+                bucket.bytecode_from_string(self.d[bucket.key])
+
+        def dump_bytecode(self, bucket):
+            self.d[bucket.key] = bucket.bytecode_to_string()
+
+    v = "<script>alert(1)</script>"
+    plain = Environment(loader=DictLoader({"page.html": "{{ v }}|{{ '<b>' }}|{% set x %}{{ v }}{% endset %}{{ x }}"}), bytecode_cache=Mem(), autoescape=False)
+    plain.get_template("page.html").render(v=v)
+    out = plain.overlay(autoescape=True).get_template("page.html").render(v=v)
+    bad = bool(leaks(out))
+    return (bad, f"plain.overlay(autoescape=True).get_template('page.html').render(v={v!r}) == {out!r}" + (" (bytecode compiled with autoescape=False reused)" if bad else ""))
 
 
 def native_structural(w=None):
@@ -1865,9 +2218,17 @@ def native_block_family(w=None):
     return (bool(problems), "; ".join(problems[:3]) or f"{'/'.join(chosen)} family (static, block and run-time decided autoescape): nothing raw in the output")
 
 
+def _with_key(task, fn):
+    task.finding_key = fn
+    return task
+
+
 TASKS = output_tasks("C15", "C15.output.wrap", output_wrap_pred, native_output_family) + buffer_inv_tasks(native_block_family) + flow_tasks() + wrapper_sink_tasks() + [FnTask("C15", "C15.buffer.inv.emitted_inventory", emitted_markup_inventory, "table", native_block_family),
               FnTask("C15", "C15.buffer.inv.block_frame_source", block_frame_source, "table", native_block_family),
-              FnTask("C15", "C15.sink.structural", structural_sinks, "table", native_structural), FnTask("C15", "C15.filter.inventory", filter_inventory, "table", native_filter_inventory),
+              FnTask("C15", "C15.sink.structural", structural_sinks, "table", native_structural),
+              FnTask("C15", "C15.sink.html_methods", html_methods, "table", native_html_methods),
+              _with_key(FnTask("C15", "C15.dependency.markup_combinators", markup_combinators, "bounded", native_markup_combinators), markup_combinators_key),
+              _with_key(FnTask("C15", "C15.cache.autoescape_key", cache_key_autoescape, "table", native_cache_key), lambda res: "F19"), FnTask("C15", "C15.filter.inventory", filter_inventory, "table", native_filter_inventory),
            SelectAutoescape(False), SelectAutoescape(True), FnTask("C15", "C15.select_autoescape.bounded", select_bounded, "bounded", native_select_autoescape)]
 
 META = {
@@ -1882,9 +2243,8 @@ META = {
     "assumptions": [
         "M: in a non-volatile frame the run-time flag context.eval_ctx.autoescape equals the compile-time flag (templates of one inheritance chain share one "
         "autoescape decision; a child 'x.txt' extending 'base.html' under select_autoescape breaks it)",
-        "regions: text rendered where autoescape is off counts as explicitly marked ('disabled autoescaping' in the statement) even when the value is later used where "
-        "autoescape is on: Environment(autoescape=False) renders {% macro m(x) %}{{ x }}{% endmacro %}{% autoescape true %}{{ m(v) }}{% endautoescape %} with v raw, because "
-        "Macro._invoke / BlockReference.__call__ tag the result by the CALL's flag while the body was escaped by the DEFINITION's flag (observation, not listed as a finding)",
+        "the three wrappers that tag generated output by a flag other than the producer's (Macro._invoke, BlockReference.__call__, TemplateModule.__html__) are "
+        "known findings, not assumptions (hunt C15_5 / C15_6 / C15_7); for a template whose parts all share one autoescape decision the flags coincide",
         "objects with __html__ are Markup-like: their __html__() text is html_safe",
         "environment.finalize is application code and maps html_safe values to html_safe values (constants are escaped before finalize; DESIGN F3 is C08's)",
         "translation callables return template text (statement: translation strings count as template text)",
